@@ -18,7 +18,7 @@ HARNESSES = []
 # reachability probes: the code under test is safe Rust (memory errors are impossible outside the
 # few `unsafe` lines of std / the mock), Rust's own panics (bounds, overflow, unwrap) remain
 # assertions, and non-vacuity is shown by explicit kani::cover! witnesses instead.
-LIGHT = ["-Z", "unstable-options", "--no-memory-safety-checks", "--no-assertion-reach-checks", "--no-undefined-function-checks"]
+LIGHT = ["-Z", "unstable-options", "--no-memory-safety-checks", "--no-assertion-reach-checks"]
 
 
 def H(**kw):
@@ -62,12 +62,6 @@ TPL_FUNCS = ["ast_grep_core::replacer::template::create_template", "ast_grep_cor
 H(prop="C07", name="c07_split_first_meta_var_n7", crate="core-h", module="c07_template",
   decides="split_first_meta_var(s) == (up to 3 sigils, maximal [A-Z_0-9]+ name, kind single/multi/transformed) or None, for every s starting with the sigil",
   functions=TPL_FUNCS[1:2], shape="STR", bounds="all strings <= 7 bytes over {$,A,T,_,1,b} starting with $; unwind 9")
-H(prop="C07", name="c07_template_scan_n3", crate="core-h", module="c07_template",
-  decides="fragments/variables/indents of the parsed template == reference scanner, for every template",
-  functions=TPL_FUNCS, shape="STR", bounds="all templates <= 3 bytes over {$,A,T,_,1,' ',\\n}, transform keys {T}; unwind 5", timeout=900)
-H(prop="C07", name="c07_template_scan_n4", crate="core-h", module="c07_template", tier="thorough",
-  decides="fragments/variables/indents of the parsed template == reference scanner, for every template",
-  functions=TPL_FUNCS, shape="STR", bounds="all templates <= 4 bytes over {$,A,T,_,1,' ',\\n}, transform keys {T}; unwind 6", timeout=5400, mem_gb=24)
 
 # ---------------------------------------------------------------- C16
 H(prop="C16", name="c16_char_column_4ch", crate="core-h", module="c16_positions",
@@ -309,7 +303,7 @@ for k, tier in ((2, "quick"), (3, "thorough")):
 H(prop="C07", name="c07_indent_at_offset_n8", crate="core-h", module="c07_indent",
   decides="get_indent_at_offset(prefix) == leading spaces of the last line of prefix",
   functions=["ast_grep_core::replacer::indent::get_indent_at_offset"], shape="STR", bounds="all prefixes <= 8 bytes over {' ',x,\\n} (below the 512-byte look-ahead window); unwind 10")
-for nm, desc, tier in (("c07_indent_shift_2_to_0", "from column 2 to 0", "quick"), ("c07_indent_identity_1", "column 1 to 1 (self-rewrite)", "quick"),
+for nm, desc, tier in (("c07_indent_shift_2_to_0", "from column 2 to 0", "thorough"), ("c07_indent_identity_1", "column 1 to 1 (self-rewrite)", "quick"),
                        ("c07_indent_shift_0_to_2", "from column 0 to 2", "thorough"), ("c07_indent_shift_2_to_1", "from column 2 to 1", "thorough")):
     H(prop="C07", name=nm, crate="core-h", module="c07_indent", timeout=1800, tier=tier,
       decides="indent_lines(to, extract_with_deindent(text, block)) == block with every continuation line shifted by (to - from); identity when to == from (rewriting a node to itself is a no-op)",
@@ -362,3 +356,30 @@ H(prop="C12", name="c12_fix_forms_agree", crate="config-h", module="c12_fix_form
   functions=["ast_grep_config::fixer::Fixer::parse", "ast_grep_config::fixer::Fixer::do_parse", "ast_grep_core::replacer::template::TemplateFix::with_transform",
              "ast_grep_core::replacer::template::replace_fixer", "ast_grep_core::replacer::template::maybe_get_var"],
   assumes=[ST_TS, ST_MAP, ST_REGEX, ST_SERDE], kf_keys=["object_fix_ignores_transform"], shape="1 node", bounds="template `$T`, transform keys {T}, T = `v`; form symbolic; unwind 10")
+
+H(prop="C12", name="c12_fix_forms_template_kind", crate="config-h", module="c12_fix_forms", stubbing=True, timeout=1800, mem_gb=20, kani_args=LIGHT, fq="c12_fix_forms::proofs::c12_fix_forms_template_kind",
+  decides="string form and object form of `fix` both classify `$T` (T a transform key) as the transformed variable",
+  functions=["ast_grep_config::fixer::Fixer::parse", "ast_grep_config::fixer::Fixer::do_parse", "ast_grep_config::fixer::Fixer::with_transform", "ast_grep_core::replacer::template::TemplateFix::with_transform"],
+  assumes=[ST_MAP, ST_REGEX, ST_SERDE], kf_keys=["object_fix_ignores_transform"], shape="1 config", bounds="template `$T`, transform keys {T}; form symbolic; unwind 10")
+
+for nm, dec in (("c04_insert_coherent", "MetaVarEnv::insert: a second binding is accepted iff other name, same node, or structurally identical (same text) code; a rejected binding leaves the env unchanged"),
+                ("c04_insert_multi_coherent", "MetaVarEnv::insert_multi: a second `$$$A` binding is accepted iff the named nodes pair up identically; rejected => env unchanged")):
+    H(prop="C04", name=nm, crate="core-h", module="c04_insert", features=["hooks", "n4"], timeout=1800, mem_gb=20,
+      recursion={"ast_grep_core::match_tree::does_node_match_exactly::<": 1},
+      decides=dec, functions=["ast_grep_core::meta_var::MetaVarEnv::insert", "ast_grep_core::meta_var::MetaVarEnv::insert_multi", "ast_grep_core::meta_var::MetaVarEnv::match_multi_var", "ast_grep_core::match_tree::does_node_match_exactly"],
+      assumes=[ST_TS, ST_MAP], shape="root + 2 leaves", bounds="two leaves with equal / different 1-byte texts, symbolic choice of nodes and names; arena 4, unwind 6")
+
+
+# ---------------------------------------------------------------- tier policy (measured)
+# quick = harnesses measured to finish in a few minutes; everything that needs tens of minutes
+# of symbolic execution (anything through MetaVarEnv, RuleCore/CombinedScan, String-heavy
+# template parsing) is thorough-tier.
+_HEAVY_PREFIXES = ("c03_env_", "c03_len_", "c02_", "c04_ops_", "c05d_", "c05_", "c14_ign", "c14_stm", "c14_plain", "c12_check", "c12_util", "c12_fix_forms_agree", "c01_combined", "c06_rewrite",
+                   "c07_template_scan", "c11_replace_regex_total", "c13_")
+for _h in HARNESSES:
+    if _h["name"].startswith(_HEAVY_PREFIXES):
+        _h["tier"] = "thorough"
+        _h.setdefault("timeout", 5400)
+        if _h["timeout"] < 5400:
+            _h["timeout"] = 5400
+
